@@ -1,9 +1,5 @@
-"""C02.O8(ii) / O9 -- expression API (placeholder filled in below)"""
+"""C02.O8(ii) / O9 -- Form expression API and thread discipline (not built yet: no tasks registered)"""
 
 
-def run(col, tier):
-    col.add("C02.O9", "expression api", "pending", True, "not yet built", nontrivial=False)
-
-
-def run_threads(col):
-    col.add("C02.O8", "thread discipline", "pending", True, "not yet built", nontrivial=False)
+def tasks(tier):
+    return []
